@@ -6,7 +6,8 @@ base = set(json.load(open('/root/.vp/BASELINE.json'))['stable_pass'])
 fd, junit = tempfile.mkstemp(suffix='.xml'); os.close(fd)
 env = dict(os.environ, PYTHONDONTWRITEBYTECODE='1')
 r = subprocess.run(['/venv/bin/python', '-m', 'pytest', '-q', '-p', 'no:cacheprovider', '--timeout=900',
-                    '--continue-on-collection-errors', '-x', '--maxfail=100000', '--junitxml=' + junit, '--no-cov'],
+                    '--continue-on-collection-errors', '-x', '--maxfail=100000', '--junitxml=' + junit, '--no-cov',
+                    '--ignore=SEED', '--ignore=HUNT', '--ignore=REVIEW'],  # deliverables of sub-agents are not tests
                    cwd=wt, env=env, capture_output=True, text=True)
 try:
     t = ET.parse(junit)
